@@ -19,6 +19,14 @@ var queueSizes = []int{2, 1, 3, 8, 64}
 // drawChan draws the channel flavour: async with a queue size and wait mode, or (when allowed) synchronous.
 //
 //go:norace
+func (e *Env) drawBuffered(cc ChanCfg) ChanCfg {
+	if e.P(5) == 4 {
+		cc.WBuf = []int{16, 1, 64, 1024, 4096}[e.P(5)]
+	}
+	return cc
+}
+
+//go:norace
 func (e *Env) drawChan(allowSync bool, qs []int) ChanCfg {
 	n := 2
 	if allowSync {
@@ -47,7 +55,7 @@ func init() {
 //go:norace
 func runC01(e *Env) {
 	cfg := WCfg{Entries: fiveEntries, CtxModes: []int{CtxBackground, CtxNeverDone}, BigSizes: true}
-	cfg.Chan = e.drawChan(true, queueSizes)
+	cfg.Chan = e.drawBuffered(e.drawChan(true, queueSizes))
 	cfg.Writers = 1 + e.P(4)
 	cfg.PerWriter = 1 + e.P(5)
 	cfg.ExecDelay = e.P(2) == 1
@@ -73,6 +81,7 @@ func runC02(e *Env) {
 	if e.P(8) == 7 {
 		cfg.Chan = ChanCfg{}
 	}
+	cfg.Chan = e.drawBuffered(cfg.Chan)
 	cfg.Writers = 1 + e.P(4)
 	cfg.PerWriter = 1 + e.P(4)
 	cfg.ExecDelay = e.P(2) == 1
@@ -93,6 +102,7 @@ func runC06(e *Env) {
 	if e.P(10) == 9 {
 		cfg.Chan = ChanCfg{}
 	}
+	cfg.Chan = e.drawBuffered(cfg.Chan)
 	cfg.Writers = 1 + e.P(3)
 	cfg.PerWriter = 1 + e.P(4)
 	cfg.CloseHow = e.P(2)
@@ -110,7 +120,7 @@ func runC06(e *Env) {
 //go:norace
 func runC10(e *Env) {
 	cfg := WCfg{Entries: fiveEntries, CtxModes: []int{CtxBackground}, Poison: true, BigSizes: true}
-	cfg.Chan = e.drawChan(true, queueSizes)
+	cfg.Chan = e.drawBuffered(e.drawChan(true, queueSizes))
 	cfg.Writers = 1 + e.P(3)
 	cfg.PerWriter = 1 + e.P(4)
 	cfg.Scribblers = e.P(3)
